@@ -2,6 +2,7 @@ package main
 
 import (
 	"fmt"
+	"go/types"
 	"strings"
 
 	"golang.org/x/tools/go/ssa"
@@ -19,11 +20,99 @@ func wtxFn(c *Ctx, rule, name string) *ssa.Function {
 	return fn
 }
 
+// isCallNamed: a call of `name`, or of a same-package unexported helper every non-error return of which has
+// passed such a call (an extracted block: `rollbackMinedTx(...)` IS "the call of putRawUnmined" for its caller).
+// MUST semantics — use it for barriers. For "may" uses (targets, containment) see mayCallNamed.
 func isCallNamed(name string) func(ssa.Instruction) bool {
 	return func(ins ssa.Instruction) bool {
 		c, ok := ins.(*ssa.Call)
-		return ok && calleeShort(&c.Call) == name
+		if !ok {
+			return false
+		}
+		if calleeShort(&c.Call) == name {
+			return true
+		}
+		return helperPasses(c.Call.StaticCallee(), c.Parent(), name, true, 0)
 	}
+}
+
+// mayCallNamed: a call of `name`, or of a same-package unexported helper that (transitively, through such helpers)
+// contains one.
+func mayCallNamed(name string) func(ssa.Instruction) bool {
+	return func(ins ssa.Instruction) bool {
+		c, ok := ins.(*ssa.Call)
+		if !ok {
+			return false
+		}
+		if calleeShort(&c.Call) == name {
+			return true
+		}
+		return helperPasses(c.Call.StaticCallee(), c.Parent(), name, false, 0)
+	}
+}
+
+type helperKey struct {
+	g    *ssa.Function
+	name string
+	must bool
+}
+
+func helperPasses(g, caller *ssa.Function, name string, must bool, depth int) bool {
+	if g == nil || caller == nil || theProg == nil || depth > 3 || len(g.Blocks) == 0 || g.Parent() != nil {
+		return false
+	}
+	if fnPkgPath(g) != fnPkgPath(caller) || g == outermost(caller) {
+		return false
+	}
+	if obj := g.Object(); obj == nil || obj.Exported() {
+		return false
+	}
+	if theProg.helperMemo == nil {
+		theProg.helperMemo = map[helperKey]int{}
+	}
+	helperMemo := theProg.helperMemo // 0 unknown, 1 in progress, 2 yes
+	k := helperKey{g, name, must}
+	switch helperMemo[k] {
+	case 1, 3:
+		return false
+	case 2:
+		return true
+	}
+	helperMemo[k] = 1
+	direct := func(ins ssa.Instruction) bool {
+		c, ok := ins.(*ssa.Call)
+		if !ok {
+			return false
+		}
+		if calleeShort(&c.Call) == name {
+			return true
+		}
+		return helperPasses(c.Call.StaticCallee(), g, name, must, depth+1)
+	}
+	res := false
+	if must {
+		has := false
+		for _, ci := range callsOf(g) {
+			if direct(ci) {
+				has = true
+			}
+		}
+		res = has && theProg.mustPassToSuccess(g, nil, direct, nil) == nil
+	} else {
+		for _, f := range Closures(g) {
+			for _, ci := range callsOf(f) {
+				if direct(ci) {
+					res = true
+				}
+			}
+		}
+	}
+	if res {
+		helperMemo[k] = 2
+	} else {
+		helperMemo[k] = 3
+	}
+	return res
 }
 
 // nilEdgeOf: cut predicate for edges on which the result of a call to `name` is nil.
@@ -37,9 +126,15 @@ func nilEdgeOf(name string) func(from *ssa.BasicBlock, si int) bool {
 // loopsRangingOver returns range loops of fn whose element type (or origin description) matches.
 func loopsRangingOver(fn *ssa.Function, over string) []*Loop {
 	var out []*Loop
-	for _, l := range loopsOf(fn) {
-		if l.Kind != "for" && (l.elemTypeName() == over || l.Over == over) {
-			out = append(out, l)
+	fns := []*ssa.Function{fn}
+	if theProg != nil && fn.Parent() == nil {
+		fns = theProg.regionTop(fn) // fn and its private parts (extracted blocks)
+	}
+	for _, f := range fns {
+		for _, l := range loopsOf(f) {
+			if l.Kind != "for" && (l.elemTypeName() == over || l.Over == over) {
+				out = append(out, l)
+			}
 		}
 	}
 	return out
@@ -104,6 +199,66 @@ func checkConflictRemoval(c *Ctx, rule string) {
 	}
 	// removing one spender of an outpoint filters the whole list of its recorded spenders
 	checkLoopsHaveNoEarlyExit(c, rule, wtxFn(c, rule, "deleteRawUnminedInput"), "removing one spender of an outpoint must consider every recorded spender (a search-and-splice that stops early deletes the whole entry when the spender is not in the list)")
+	// ... and the entry is rewritten (or deleted) only from the filtered list: no write of the spender record may be
+	// reachable before the filter over its hashes has run (a shortcut such as "one hash left: delete the record" forgets
+	// a spender that is not the one being removed)
+	if dri := wtxFn(c, rule, "deleteRawUnminedInput"); dri != nil {
+		hasFilter := func(f *ssa.Function) *Loop {
+			for _, l := range loopsOf(f) {
+				if l.containsInstr(func(ins ssa.Instruction) bool {
+					call, ok := ins.(*ssa.Call)
+					return ok && (calleeShort(&call.Call) == "Equal" || calleeShort(&call.Call) == "Compare")
+				}) || l.containsInstr(func(ins ssa.Instruction) bool {
+					bo, ok := ins.(*ssa.BinOp)
+					if !ok || (bo.Op.String() != "==" && bo.Op.String() != "!=") {
+						return false
+					}
+					_, isArr := bo.X.Type().Underlying().(*types.Array)
+					return isArr
+				}) {
+					return l
+				}
+			}
+			return nil
+		}
+		n := 0
+		for _, ci := range callsOf(dri) {
+			call, ok := ci.(*ssa.Call)
+			if !ok || !call.Call.IsInvoke() {
+				continue
+			}
+			m := call.Call.Method.Name()
+			if m != "Delete" && m != "Put" {
+				continue
+			}
+			n++
+			okW := false
+			if l := hasFilter(dri); l != nil && l.Header.Dominates(call.Block()) && !l.Blocks[call.Block()] {
+				okW = true
+			}
+			// the filter extracted into a same-package helper whose call dominates the write
+			for _, c2 := range callsOf(dri) {
+				hc, ok := c2.(*ssa.Call)
+				if !ok || hc == call {
+					continue
+				}
+				h := hc.Call.StaticCallee()
+				if h == nil || h.Pkg != dri.Pkg || len(h.Blocks) == 0 || hasFilter(h) == nil {
+					continue
+				}
+				if hc.Block().Dominates(call.Block()) && (hc.Block() != call.Block() || instrIndex(hc) < instrIndex(call)) {
+					okW = true
+				}
+			}
+			c.Check(rule, "spender-record-written-only-after-filter:"+m, call.Pos(), okW,
+				"deleteRawUnminedInput can "+m+" the outpoint's spender record on a path that has not compared the recorded hashes with the spender being removed: when that spender is not (the only one) in the list, another unconfirmed spender of the outpoint is forgotten and the output reads as unspent")
+		}
+		c.Floor(rule, "writes of the spender record in deleteRawUnminedInput", n, 2)
+	}
+	// a confirmed transaction's unconfirmed copy goes completely: each of its unmined credits is deleted, unconditionally
+	// (the confirmation has already re-created them as mined credits; a copy left behind is counted a second time)
+	checkPerIteration(c, rule, wtxFn(c, rule, "deleteUnminedTx"), "TxOut", "deleteRawUnminedCredit", 1,
+		"an output of a transaction leaving the unconfirmed store can keep its unmined credit record: the same credit then exists as mined and as unmined and is counted twice once its unconfirmed spender goes away")
 	// conflicts are found through the unconfirmed-spender index only: every input of every unconfirmed transaction must be in it
 	checkPerIteration(c, rule, wtxFn(c, rule, "insertMemPoolTx"), "TxIn", "putRawUnminedInput", 1,
 		"an input of a newly seen unconfirmed transaction is not registered in the unconfirmed-spender index: when a conflicting transaction confirms, this one (and its descendants) survive and keep counting")
@@ -150,4 +305,72 @@ func checkConflictRemoval(c *Ctx, rule string) {
 		bad := p.mustPassToSuccess(rm, nil, p.reachingCall(rc), nil)
 		c.Check(rule, "RemoveUnminedTx-reaches-removeConflict", rm.Pos(), bad == nil, "RemoveUnminedTx can succeed without the recursive conflict removal")
 	}
+}
+
+// viaHelpers lifts a predicate on instructions over extracted helpers: the result also holds for a call of a same-package
+// unexported function that (must) passes an instruction satisfying it on every way to a non-error return, or (may)
+// contains one — transitively through such helpers. key identifies the predicate for memoisation.
+func viaHelpers(key string, base func(ssa.Instruction) bool, must bool) func(ssa.Instruction) bool {
+	var lifted func(ins ssa.Instruction, depth int) bool
+	var helper func(g, caller *ssa.Function, depth int) bool
+	helper = func(g, caller *ssa.Function, depth int) bool {
+		if g == nil || caller == nil || theProg == nil || depth > 3 || len(g.Blocks) == 0 || g.Parent() != nil {
+			return false
+		}
+		if fnPkgPath(g) != fnPkgPath(caller) || g == outermost(caller) {
+			return false
+		}
+		if obj := g.Object(); obj == nil || obj.Exported() {
+			return false
+		}
+		if theProg.helperMemo == nil {
+			theProg.helperMemo = map[helperKey]int{}
+		}
+		k := helperKey{g, "pred:" + key, must}
+		switch theProg.helperMemo[k] {
+		case 1, 3:
+			return false
+		case 2:
+			return true
+		}
+		theProg.helperMemo[k] = 1
+		inner := func(ins ssa.Instruction) bool { return lifted(ins, depth+1) }
+		res := false
+		if must {
+			has := false
+			for _, ci := range callsOf(g) {
+				if inner(ci) {
+					has = true
+				}
+			}
+			res = has && theProg.mustPassToSuccess(g, nil, inner, nil) == nil
+		} else {
+			for _, f := range Closures(g) {
+				for _, b := range f.Blocks {
+					for _, ins := range b.Instrs {
+						if inner(ins) {
+							res = true
+						}
+					}
+				}
+			}
+		}
+		if res {
+			theProg.helperMemo[k] = 2
+		} else {
+			theProg.helperMemo[k] = 3
+		}
+		return res
+	}
+	lifted = func(ins ssa.Instruction, depth int) bool {
+		if base(ins) {
+			return true
+		}
+		c, ok := ins.(*ssa.Call)
+		if !ok {
+			return false
+		}
+		return helper(c.Call.StaticCallee(), c.Parent(), depth)
+	}
+	return func(ins ssa.Instruction) bool { return lifted(ins, 0) }
 }
